@@ -85,12 +85,16 @@ package ontology
 //@ # exist, and it closes no cycle - a new edge from->to closes a cycle iff from == to or from is
 //@ # reachable from to
 //@ func (d dagWriter) DefineRelationship(ctx context.Context, from ID, t RelationshipType, to ID) (err error)
+//@   theory strings
+//@   requires wfID(from) && wfID(to) && (forall x ID :: SpecNodes[x] || SpecReach(to, x) ==> wfID(x))
 //@   atcall NewCreate !SpecEdges[Relationship{From: from, To: to, Type: t}] && SpecNodes[from] && SpecNodes[to] && from != to && !SpecReach(to, from)
 //@   modifies *
 
 //@ # every target is checked against the pre-state graph (all new edges leave `from`, so they
 //@ # cannot create a path into `from` among themselves unless a target is `from` or reaches it)
 //@ func (d dagWriter) DefineFromOneToManyRelationships(ctx context.Context, from ID, t RelationshipType, to []ID) (err error)
+//@   theory strings
+//@   requires wfID(from) && (forall i int :: 0 <= i && i < len(to) ==> wfID(to[i]) && (forall x ID :: SpecReach(to[i], x) ==> wfID(x)))
 //@   atcall NewCreate SpecNodes[from] && (forall i int :: 0 <= i && i < len(to) ==> SpecNodes[to[i]] && to[i] != from && !SpecReach(to[i], from))
 //@   modifies *
 //@   loop 0 invariant forall j int :: 0 <= j && j < __ri(0) ==> rels[j].To != from && !SpecReach(rels[j].To, from)
